@@ -593,7 +593,10 @@ pub fn c04(tier: Tier) -> Vec<Case> {
                 dirs.push(Directive::NoSkipWs);
             }
             let g = root_grammar(dirs, e.clone(), &leaves);
-            add_if_wf(&mut b, if noskip { "utf8/no_skip_ws" } else { "utf8/skip" }, g, &inputs);
+            // multi-byte characters that Unicode (not peginator) calls white space, where the skipper looks
+            let spaces = InputSpec::Strings { alphabet: vec!['a', 'é', ' ', '\u{85}', '\u{a0}', '\u{2003}', '\u{2028}', '\u{3000}'], max_len: len.min(3) };
+            let both = InputSpec::Multi(vec![inputs.clone(), spaces]);
+            add_if_wf(&mut b, if noskip { "utf8/no_skip_ws" } else { "utf8/skip" }, g, &both);
         }
     }
     // long multi-byte inputs
